@@ -39,6 +39,8 @@ def main(argv):
         print(f"ERROR: could not analyse {repo}: {e}")
         return 2
     extra = {}
+    if getattr(program, "renamed", None):
+        chk.note("functions recognised as renamings of reviewed functions (analysed under their reviewed names): " + ", ".join(f"{n} = {o}" for n, o in sorted(program.renamed.items())))
     try:
         mod.run(program, chk)
         if tier == "thorough":
